@@ -395,11 +395,6 @@ func c20GuardedValue(c *Ctx, guards []*FieldGuard) {
 					}
 				case *ssa.ChangeType:
 					uses(x, fn, d, via)
-				case *ssa.Call:
-					// copy(dst, v) reads every element of v
-					if b, ok := x.Call.Value.(*ssa.Builtin); ok && b.Name() == "copy" && len(x.Call.Args) == 2 && x.Call.Args[1] == v {
-						check(x, fn, "copy out", via)
-					}
 				case *ssa.MakeInterface:
 					// boxed: not followed
 				case *ssa.Store:
@@ -448,6 +443,10 @@ func c20GuardedValue(c *Ctx, guards []*FieldGuard) {
 					if b, ok := cc.Value.(*ssa.Builtin); ok {
 						if b.Name() == "len" && isMap {
 							check(x, fn, "len", via) // (len of a slice value reads the copied header only)
+						}
+						// copy(dst, v) reads every element of v
+						if b.Name() == "copy" && len(cc.Args) == 2 && cc.Args[1] == v {
+							check(x, fn, "copy out", via)
 						}
 						continue
 					}
